@@ -442,6 +442,7 @@ func checkBiMapOrientation(c *Ctx, res *report.Result, rule string, ns, sa bool)
 		res.Undec(rule, "collect.NewStaticBiMap", "", "anchor does not resolve")
 		return
 	}
+	initBimapRoles(nb)
 	okFwd, okBwd := false, false
 	for _, g := range append([]*ssa.Function{nb}, flow.AnonFuncsDeep(nb)...) {
 		for _, b := range g.Blocks {
@@ -536,7 +537,61 @@ func checkBiMapOrientation(c *Ctx, res *report.Result, rule string, ns, sa bool)
 	}
 }
 
-// mapOwnerName: for a map value loaded as (*cell).contents, the name of the cell (forward/backward).
+// bimapRoles names the two local bimap cells of NewStaticBiMap by role: the one whose value is returned
+// is "forward", the other "backward" (independent of the variable names).
+var bimapRoles = map[ssa.Value]string{}
+
+func initBimapRoles(nb *ssa.Function) {
+	bimapRoles = map[ssa.Value]string{}
+	var cells []*ssa.Alloc
+	for _, b := range nb.Blocks {
+		for _, ins := range b.Instrs {
+			if al, ok := ins.(*ssa.Alloc); ok {
+				if p, ok := al.Type().Underlying().(*types.Pointer); ok {
+					if pp, ok := p.Elem().Underlying().(*types.Pointer); ok {
+						if n, ok := types.Unalias(pp.Elem()).(*types.Named); ok && n.Obj().Name() == "staticBiMap" {
+							cells = append(cells, al)
+						}
+					}
+				}
+			}
+		}
+	}
+	var fwd *ssa.Alloc
+	for _, b := range nb.Blocks {
+		for _, ins := range b.Instrs {
+			var v ssa.Value
+			switch x := ins.(type) {
+			case *ssa.Store:
+				v = x.Val
+			case *ssa.Return:
+				if len(x.Results) > 0 {
+					v = x.Results[0]
+				}
+			}
+			if mi, ok := v.(*ssa.MakeInterface); ok {
+				if ld, ok := mi.X.(*ssa.UnOp); ok {
+					if al, ok := ld.X.(*ssa.Alloc); ok {
+						for _, cnd := range cells {
+							if cnd == al {
+								fwd = al
+							}
+						}
+					}
+				}
+			}
+		}
+	}
+	for _, cnd := range cells {
+		if cnd == fwd {
+			bimapRoles[cnd] = "forward"
+		} else if fwd != nil {
+			bimapRoles[cnd] = "backward"
+		}
+	}
+}
+
+// mapOwnerName: for a map value loaded as (*cell).contents, the role of the cell (forward/backward).
 func mapOwnerName(m ssa.Value) string {
 	m = flow.ResolveLoad(m)
 	ld, ok := m.(*ssa.UnOp)
@@ -550,14 +605,16 @@ func mapOwnerName(m ssa.Value) string {
 	return cellName(fa.X)
 }
 
-// cellName names the variable behind a value: `*forward` (load of a cell/freevar named forward).
+// cellName names the role of the bimap cell behind a value `*cell`.
 func cellName(v ssa.Value) string {
 	if ld, ok := v.(*ssa.UnOp); ok && ld.Op == token.MUL {
 		switch x := ld.X.(type) {
 		case *ssa.FreeVar:
-			return x.Name()
+			if b := freeVarBinding(x); b != nil {
+				return bimapRoles[b]
+			}
 		case *ssa.Alloc:
-			return x.Comment
+			return bimapRoles[x]
 		}
 	}
 	return ""
@@ -832,6 +889,7 @@ func checkInjectivity(c *Ctx, res *report.Result, rule string) {
 		res.Undec(rule, "collect.NewStaticBiMap", "", "anchor does not resolve")
 		return
 	}
+	initBimapRoles(nb)
 	nUpd := 0
 	for _, g := range append([]*ssa.Function{nb}, flow.AnonFuncsDeep(nb)...) {
 		for _, b := range g.Blocks {
